@@ -300,6 +300,8 @@ class SymStr(object):
                 if ord(ch) > 255:
                     raise EngineUnsupported("character %r outside the Latin-1 alphabet" % ch)
             return SymStr([ord(c) for c in x], len(x))
+        if isinstance(x, (bytes, bytearray)):
+            return SymStr(list(x), len(x))  # raw bytes compared with a symbolic byte string
         raise TypeError("cannot lift %r to SymStr" % type(x))
 
     @staticmethod
